@@ -15,6 +15,8 @@ connection to be closed, and the connection is closed once that response has bee
 import TboxModel.C12.ProofsFeed
 import TboxModel.C12.ProofsPipe
 import TboxModel.C12.ProofsWire
+import TboxModel.C12.ProofsResp
+import TboxModel.C12.ProofsUrl
 namespace Tbox.C12
 
 /-! ## A. parser and feed loop -/
@@ -47,7 +49,8 @@ of them; `tablesStd_holds` shows the presupposition is true of the tree the proo
 the changed entry through the `method` / `version` ops with the name as replay.) -/
 def tablesStd : Bool :=
   methodOf (ascii "GET") == some "kGet" && methodOf (ascii "POST") == some "kPost" &&
-  verOf (ascii "HTTP/1.1") == some "k1_1" && verOf (ascii "HTTP/1.0") == some "k1_0"
+  verOf (ascii "HTTP/1.1") == some "k1_1" && verOf (ascii "HTTP/1.0") == some "k1_0" &&
+  verStr "k1_1" == "HTTP/1.1" && statusText 404 == "404 Not Found" && statusText 200 == "200 OK"
 
 theorem tablesStd_holds : tablesStd = true := by decide +kernel
 
@@ -272,7 +275,7 @@ theorem C12_no_response_stuck (ops : List PipeOp) (hok : traceOk {} ops = true) 
 
 theorem step_invalid (p : Pipe) (op : PipeOp) (h : p.valid = false) :
     (p.step op).valid = false ∧ (p.step op).written = p.written := by
-  cases op <;> simp [Pipe.step, Pipe.onRequest, Pipe.commit, Pipe.sendComplete, Pipe.peerClosed, Pipe.kernel, h]
+  cases op <;> simp [Pipe.step, Pipe.onRequest, Pipe.commit, Pipe.sendComplete, Pipe.peerClosed, Pipe.kernel, Pipe.writeError, h]
 
 theorem run_invalid (p : Pipe) (ops : List PipeOp) (h : p.valid = false) :
     (p.run ops).valid = false ∧ (p.run ops).written = p.written := by
@@ -347,9 +350,9 @@ delivered every byte handed to `send` — the closing response reaches the peer 
 the connection is dropped, also when it needed many partial writes. (Send-complete being
 reported only after the send buffer drained is the assumed send-side contract, part of `traceOk`.) -/
 theorem C12_close_after_full_delivery (ops : List PipeOp) (hok : traceOk {} ops = true)
-    (hnd : PipeOp.drop ∉ ops) (hgone : (Pipe.run {} ops).valid = false) :
+    (hnd : PipeOp.drop ∉ ops) (hnh : PipeOp.halfClose ∉ ops) (hgone : (Pipe.run {} ops).valid = false) :
     (Pipe.run {} ops).peerBytes = ((Pipe.run {} ops).written.map (·.2)).flatten := by
-  have := run_noLoss {} ops (by intro h; simp at h) hok hnd hgone
+  have := run_noLoss {} ops (by intro h; simp at h) hok hnd hnh hgone
   unfold Pipe.peerBytes
   rw [this]
   exact List.take_length
@@ -357,12 +360,112 @@ theorem C12_close_after_full_delivery (ops : List PipeOp) (hok : traceOk {} ops 
 /-- non-vacuity: partial writes of a closing response, then send-complete drops the connection -/
 example :
     let ops := [PipeOp.req true, .commit 0 [1, 2, 3, 4, 5], .kernel 2, .kernel 1, .kernel 9, .sendComplete]
-    traceOk {} ops = true ∧ PipeOp.drop ∉ ops ∧ (Pipe.run {} ops).valid = false ∧
+    traceOk {} ops = true ∧ PipeOp.drop ∉ ops ∧ PipeOp.halfClose ∉ ops ∧ (Pipe.run {} ops).valid = false ∧
     (Pipe.run {} (ops.take 3)).peerBytes = [1, 2] ∧ (Pipe.run {} ops).peerBytes = [1, 2, 3, 4, 5] := by
   decide +kernel
 
 /-- a send-complete while bytes are still buffered is not admissible (contract) -/
 example : traceOk {} [PipeOp.req true, .commit 0 [1, 2, 3], .kernel 2, .sendComplete] = false := by decide +kernel
+
+/-- C12_write_error: once a write on the socket has failed, nothing more reaches the peer —
+whatever the handlers commit afterwards and whatever else happens (the tear-down guarantees of
+C12_single_disconnect hold for such histories as for all others). -/
+theorem C12_write_error (ops more : List PipeOp) (hb : (Pipe.run {} ops).wbroken = true) :
+    ((Pipe.run {} ops).run more).peerBytes = (Pipe.run {} ops).peerBytes :=
+  frozen_peerBytes (run_frozen _ _ more ⟨hb, rfl, [], by simp⟩) (run_inv2 {} ops inv2_init).sentLe
+
+/-
+-- OPEN (false of the code as it is — C12_half_close_counterexample): "after the peer shut down only
+--   its sending side, the responses of the requests already handed to handlers are still written, in
+--   order, and the connection is closed after the last of them."
+-- TcpConnection treats read()==0 as "connection closed" and tears the connection down (proposed
+-- known_findings line in the report; a repair needs a half-close notion in network/TcpConnection).
+-/
+
+/-- as coded, a peer that only half-closes (it still reads) loses every outstanding response -/
+theorem C12_half_close_counterexample :
+    (Pipe.run {} [.req false, .req false, .halfClose, .commit 0 [0], .commit 1 [1]]).written = [] ∧
+    (Pipe.run {} [.req false, .req false, .halfClose, .commit 0 [0], .commit 1 [1]]).valid = false := by
+  decide +kernel
+
+/-! ### handlers that behave unusually -/
+
+/-- C12_written_once: a response index is never written twice — also when a handler commits the
+same request several times (before its turn the later commit replaces the parked one, after it
+the commit stays parked and is never written) and whatever else the handlers do. -/
+theorem C12_written_once (ops : List PipeOp) (hok : traceOk {} ops = true) :
+    ((Pipe.run {} ops).written.map (·.1)).Nodup := by
+  rw [(C12_in_order_once ops hok).1]
+  exact List.nodup_range
+
+/-- non-vacuity: double commits are admissible histories -/
+example : traceOk {} [.req false, .req false, .commit 1 [1], .commit 1 [9], .commit 0 [0], .commit 0 [7], .commit 1 [8]] = true ∧
+    (Pipe.run {} [.req false, .req false, .commit 1 [1], .commit 1 [9], .commit 0 [0], .commit 0 [7], .commit 1 [8]]).written
+      = [(0, [0]), (1, [9])] := by decide +kernel
+
+/-- C12_head_of_line: if the handler of request `k` never completes, nothing at or beyond `k` is
+written, however many later requests complete. -/
+theorem C12_head_of_line (ops : List PipeOp) (hok : traceOk {} ops = true) (k : Nat)
+    (hk : ∀ r, PipeOp.commit k r ∉ ops) : (Pipe.run {} ops).resIndex ≤ k ∧ ∀ x ∈ (Pipe.run {} ops).written, x.1 < k := by
+  have h := C12_in_order_once ops hok
+  have hle : (Pipe.run {} ops).resIndex ≤ k := by
+    apply Nat.le_of_not_lt
+    intro hlt
+    have hm : k ∈ (Pipe.run {} ops).written.map (·.1) := by rw [h.1]; exact List.mem_range.mpr hlt
+    obtain ⟨x, hx, hxk⟩ := List.mem_map.mp hm
+    exact hk x.2 (by have := h.2 x hx; rwa [hxk] at this)
+  refine ⟨hle, ?_⟩
+  intro x hx
+  have hm : x.1 ∈ (Pipe.run {} ops).written.map (·.1) := List.mem_map_of_mem hx
+  rw [h.1, List.mem_range] at hm
+  omega
+
+/-- C12_commit_after_gone: a handler that completes after the connection is gone (dropped by the
+server, closed by the peer, parser failure) writes nothing and tears nothing down again. -/
+theorem C12_commit_after_gone (ops : List PipeOp) (i : Nat) (r : Bytes) (hg : (Pipe.run {} ops).valid = false) :
+    ((Pipe.run {} ops).step (.commit i r)) = Pipe.run {} ops := by
+  simp [Pipe.step, Pipe.commit, hg]
+
+/-! ### what is written for a Respond value -/
+
+/-- C12_respond_roundtrip: the bytes `Respond::toString()` produces for any response value whose
+header keys contain no ':'/CR and whose header values contain no CR are read back by an independent
+minimal response reader (Spec.parseResponse) as the same version, status text, headers (in map
+order, followed by the Content-Length line that is always added) and body, with nothing left over. -/
+theorem C12_respond_roundtrip (r : Respond) (hp : r.printable = true) :
+    parseResponse r.render = some ⟨ascii (verStr r.ver), ascii (statusText r.status),
+      r.headers ++ [(ascii "Content-Length", decimal r.body.length)], r.body⟩ :=
+  parseResponse_render r hp
+
+/-! ### url.cpp beyond what the parser needs -/
+
+/-- C12_url_codec_roundtrip: `UrlDecode(UrlEncode(s, mode)) = s` for every byte string and both
+modes (the encoder is what `UrlPathToString`, hence `Request::toString`, uses for path,
+parameters and query). -/
+theorem C12_url_codec_roundtrip (pathMode : Bool) (s : Bytes) : urlDecode (urlEncode pathMode s) = some s :=
+  urlDecode_urlEncode pathMode s
+
+/-
+-- OPEN: `StringToUrlPath (UrlPathToString u) = u` for every UrlPath with non-empty keys. False as coded
+-- because of the fragment (next theorem); for fragment-free paths it needs "the encoder never emits
+-- ; = & ? #" plus the Split lemmas — not closed. StringToUrl / UrlToString / UrlHostToString /
+-- StringToUrlHost (absolute URLs) are called from nowhere in the library except their unit tests and are
+-- not on any path of the HTTP server: out of C12's scope.
+-/
+
+/-- the fragment is printed unencoded but decoded when parsed: "%41" comes back as "A" -/
+theorem C12_url_roundtrip_counterexample :
+    parseUrlPath (urlPathToString ⟨ascii "/p", [], [], ascii "%41"⟩) = some ⟨ascii "/p", [], [], ascii "A"⟩ := by
+  decide +kernel
+
+/-- a handler that lets go of its context without touching the response answers 404 (context.cpp:
+the constructor presets 404 / HTTP/1.1, the destructor commits) -/
+theorem C12_untouched_context_answers_404 : statusText 404 = "404 Not Found" → verStr "k1_1" = "HTTP/1.1" →
+    ({} : Respond).render = ascii "HTTP/1.1 404 Not Found\r\nContent-Length: 0\r\n\r\n" := by
+  intro h1 h2
+  have hd : decimal 0 = [48] := by unfold decimal; simp
+  simp only [Respond.render, h1, h2, hdrLine, List.length_nil, hd]
+  decide +kernel
 
 /-- non-vacuity: an admissible history with out-of-order completion and a closing request -/
 example :
